@@ -7,7 +7,9 @@ of /repo's HEAD), own target directories — so it can run in the background wit
 /repo, /verif/evidence or /verif/target. For every seeded/<name>/patch.diff: apply to the
 scratch repo, run the quick checks of the seed's family (or all with --all), record exit code
 and violated keys, revert. Result: /verif/seeded/MATRIX.json (+ MATRIX.md).
-usage: seed_matrix.py [--all] [seed names...]"""
+usage: seed_matrix.py [--benign] [--all] [--checks=C01,C02] [--force] [names...]
+--checks restricts the run to these checks (intersected with the family); --force re-runs
+names already in the matrix (their other columns are kept)."""
 import json, os, subprocess, sys, glob, shutil
 BENIGN='--benign' in sys.argv
 MX='/tmp/bx' if BENIGN else '/tmp/mx'
@@ -52,6 +54,10 @@ def main():
     args=sys.argv[1:]
     allchecks='--all' in args
     only=[a for a in args if not a.startswith('--')]
+    force='--force' in args
+    restrict=None
+    for a in args:
+        if a.startswith('--checks='): restrict=set(a.split('=',1)[1].split(','))
     setup()
     seeds=sorted(glob.glob('/verif/'+KIND+'/*/patch.diff'))
     mpath=f'/verif/{KIND}/MATRIX.json'
@@ -59,13 +65,15 @@ def main():
     for pd in seeds:
         name=os.path.basename(os.path.dirname(pd))
         if only and name not in only: continue
-        if not only and name in matrix and not allchecks: continue
+        if not only and name in matrix and not allchecks and not force: continue
         r=sh(f'git -C {MX}/repo apply {pd}')
         if r.returncode!=0:
             print(name,'patch does not apply:',r.stderr[:200]); continue
         checks=[f'C{i:02d}' for i in range(1,21)] if allchecks else family(pd)
         own=name.split('-')[0]
         if own not in checks: checks.append(own)
+        if restrict is not None: checks=[c for c in checks if c in restrict]
+        if not checks: continue
         row=matrix.get(name,{})
         try:
             for c in sorted(checks):
